@@ -1,4 +1,4 @@
-//@unit E8 : compress_literals / raw_literals (encoder): every value written into a literals-section header fits the bit width of the size format chosen for it (RFC 8878 3.1.1.3.1.1: 10 / 14 / 18 / 20 bits), the size format matches the width, and on the path that keeps the compressed literals the compressed size fits too
+//@unit E8 : compress_literals / raw_literals (encoder): a Huffman table is handed back to the caller only if its description was written; every value written into a literals-section header fits the bit width of the size format chosen for it (RFC 8878 3.1.1.3.1.1: 10 / 14 / 18 / 20 bits), the size format matches the width, and on the path that keeps the compressed literals the compressed size fits too
 //@props C14,C02,C16,C15
 //@tier quick
 //@profile rel
@@ -20,28 +20,30 @@ pub open spec fn fits(v: u64, n: usize) -> bool { n >= 64 || v < (1u64 << (n as 
 pub struct BitWriter { _o: u8 }
 impl BitWriter {
     pub uninterp spec fn idx(&self) -> int;
+    /// ghost: how many Huffman table descriptions the bytes written so far (and not discarded) contain
+    pub uninterp spec fn tables(&self) -> int;
     #[verifier::external_body]
     pub fn index(&self) -> (r: usize) ensures r == self.idx(), { unimplemented!() }
     /// documented contract of BitWriter::write_bits
     #[verifier::external_body]
     pub fn write_bits<T: Into<u64> + Copy>(&mut self, bits: T, num_bits: usize)
         requires num_bits <= 64, fits(into_u64(bits), num_bits),
-        ensures final(self).idx() == old(self).idx() + num_bits,
+        ensures final(self).idx() == old(self).idx() + num_bits, final(self).tables() == old(self).tables(),
     { unimplemented!() }
     #[verifier::external_body]
     pub fn change_bits<T: Into<u64> + Copy>(&mut self, idx: usize, bits: T, num_bits: usize)
         requires idx + num_bits < old(self).idx(),
-        ensures final(self).idx() == old(self).idx(),
+        ensures final(self).idx() == old(self).idx(), final(self).tables() == old(self).tables(),
     { unimplemented!() }
     #[verifier::external_body]
     pub fn reset_to(&mut self, index: usize)
         requires index % 8 == 0, index <= old(self).idx(),
-        ensures final(self).idx() == index,
+        ensures final(self).idx() == index,     // (what was written after `index`, including a table description, is discarded)
     { unimplemented!() }
     #[verifier::external_body]
     pub fn append_bytes(&mut self, data: &[u8])
         requires old(self).idx() % 8 == 0,
-        ensures final(self).idx() == old(self).idx() + 8 * data@.len(),
+        ensures final(self).idx() == old(self).idx() + 8 * data@.len(), final(self).tables() == old(self).tables(),
     { unimplemented!() }
 }
 pub uninterp spec fn into_u64<T>(v: T) -> u64;
@@ -61,7 +63,9 @@ impl HuffmanTable {
 #[verifier::external_body]
 pub fn huff_encode(table: &HuffmanTable, writer: &mut BitWriter, data: &[u8], with_table: bool, single_stream: bool)
     requires old(writer).idx() % 8 == 0,
-    ensures final(writer).idx() >= old(writer).idx() + 8 /* every stream ends with a padding marker: at least one byte */, final(writer).idx() % 8 == 0, final(writer).idx() <= old(writer).idx() + 16 * 8 * (data@.len() + 1024),
+    ensures
+        final(writer).tables() == old(writer).tables() + (if with_table { 1int } else { 0int }),
+        final(writer).idx() >= old(writer).idx() + 8 /* every stream ends with a padding marker: at least one byte */, final(writer).idx() % 8 == 0, final(writer).idx() <= old(writer).idx() + 16 * 8 * (data@.len() + 1024),
 { unimplemented!() }
 
 pub proof fn lemma_widths()
@@ -88,6 +92,9 @@ pub proof fn lemma_widths()
         old(writer).idx() % 8 == 0,
     ensures
         final(writer).idx() % 8 == 0,
+        // C02/C16 table synchronisation: the caller stores the returned table as "the table the decoder has"; so a table may be
+        // returned only if its description was actually written into the (kept) output of this call
+        r is Some ==> final(writer).tables() == old(writer).tables() + 1,
 //@ghost at=start
     proof { lemma_widths(); broadcast use into_u64_u8, into_u64_u32, into_u64_u64; }
 //@ghost before="writer.write_bits(size_format, 2);"
